@@ -2,11 +2,11 @@
 # tools/sweep.sh <seed> [tier] : run every registered check once at the given seed, print one line each
 SEED=${1:-2}; TIER=${2:-quick}
 cd "$(dirname "$(readlink -f "$0")")/.."
-for p in $(python3 -c "import json;print(' '.join(c['property_id'] for c in json.load(open('MANIFEST.json'))['checks']))"); do
+for p in ${PROPS:-$(python3 -c "import json;print(' '.join(c['property_id'] for c in json.load(open('MANIFEST.json'))['checks']))")}; do
   S=$(date +%s)
-  VERIF_SEED=$SEED ./check $p --tier $TIER > /tmp/sweep-$p-$SEED.out 2>&1
+  VERIF_SEED=$SEED ./check $p --tier $TIER > /tmp/sweep-$p-$SEED-$TIER.out 2>&1
   RC=$?
   E=$(( $(date +%s) - S ))
-  echo "$p seed=$SEED rc=$RC ${E}s $(grep -c VIOLATION /tmp/sweep-$p-$SEED.out) violations $(grep -c KNOWN-FINDING /tmp/sweep-$p-$SEED.out) known"
-  if [ $RC -ne 0 ]; then grep -E "VIOLATION|kind=|HARNESS|INCONCLUSIVE|Error|error" /tmp/sweep-$p-$SEED.out | head -5 | cut -c1-300; fi
+  echo "$p seed=$SEED rc=$RC ${E}s $(grep -c VIOLATION /tmp/sweep-$p-$SEED-$TIER.out) violations $(grep -c KNOWN-FINDING /tmp/sweep-$p-$SEED-$TIER.out) known"
+  if [ $RC -ne 0 ]; then grep -E "VIOLATION|kind=|HARNESS|INCONCLUSIVE|Error|error" /tmp/sweep-$p-$SEED-$TIER.out | head -5 | cut -c1-300; fi
 done
